@@ -92,6 +92,12 @@ HARNESSES = [
       fns=['input::Handle::borrow_mut', 'input::GuardedCaptureReader::rewind_and_borrow_mut', 'input::CaptureReader::is_source_eof'], timeout=300, min_covers=2),
     H('U-CAP', 'input', 'handle_borrow_mut_slice_is_identity', 'complete', ['C09', 'C02'], bounds='slice <= 3 B (pointer identity)',
       fns=['input::Handle::from_slice', 'input::Handle::borrow_mut', 'input::Input::from'], timeout=300, allow_unreachable_asserts=True),
+    H('U-CAP', 'input', 'input_from_handle_decision', 'bounded-size', ['C05', 'C09', 'C02'], bounds='handle in any valid state over a stream <= 4 B',
+      fns=['input::Input::from', 'input::GuardedCaptureReader::rewind_and_take', 'input::CaptureReader::into_inner', 'input::CaptureReader::is_source_eof'], timeout=600, min_covers=3,
+      assumes=['which reader is handed on is observed by box identity; reading through the chain (std::io::Chain + FusedReader) is not executed']),
+    H('U-CAP', 'input', 'cow_try_from_handle_yields_whole_stream', 'bounded-size', ['C09', 'C02'], tier='thorough', bounds='handle in any valid state over a stream <= 4 B',
+      fns=['input::Cow::try_from(Handle)', 'input::CaptureReader::capture_to_end'], timeout=2400, min_covers=1,
+      assumes=['std::io::default_read_to_end stubbed by its documented contract']),
     H('U-CAP', 'input', 'fused_reader_contract', 'complete', ['C05', 'C02'], bounds='all 3-step inner result scripts, caller buffer <= 2 B',
       fns=['input::FusedReader::read'], timeout=300, min_covers=2),
     # ---- U-ENC ----
@@ -342,7 +348,7 @@ PROPERTIES = {
         assumptions=['what each trial parser accepts (assumed)', 'std::io::default_read_to_end stubbed by its documented contract in capture_* harnesses',
                      'rmp_serde / serde_json error categories as stated in the stubs'],
         not_covered=['same-format detection from slice and reader for JSON/YAML/TOML (two parser entry points each)', 'yaml::input_matches / toml::input_matches result mapping (call libyaml / toml)',
-                     'Input::from(handle) / Ref::prefix / Cow::try_from composition through Box<dyn Read> (out of CBMC\'s reach at useful sizes; their parts are under contract)']),
+                     'reading through the chain built by Input::from(handle) and Ref::prefix through Box<dyn Read> (out of CBMC\'s reach; the decision of Input::from, capture_up_to_size and FusedReader are under contract)']),
     'C10': dict(
         explanation='Gate/order skeleton only: MessagePack trial runs iff byte 0 is a map/array marker (all 256 bytes), so JSON, YAML (---) and ASCII-first TOML output never enter it, and every '
                     'map/array header does; fixed trial order. Thinnest claim of the set.',
